@@ -568,17 +568,31 @@ func checkMain(args []string, t *testing.T) int {
 				_ = rf.Write(path)
 				fmt.Printf("note: shrinking %s failed (%v): %s\n", s, err, tail(string(ob), 500))
 			}
-			// fresh-process strict replay must reproduce
-			cmd = exec.Command(self(), "replay", "-file", path, "-quiet")
-			cmd.Env = append(os.Environ(), "GOMAXPROCS=1")
-			ob, err = cmd.CombinedOutput()
-			code := 0
-			if ee, ok := err.(*exec.ExitError); ok {
-				code = ee.ExitCode()
+			// fresh-process strict replay must reproduce. A few checks hand part of a run to real
+			// parallelism that no scheduler of ours controls (VictoriaMetrics' unmarshal worker
+			// pool on multi-block payloads): such a violation is a data race and may need several
+			// attempts; it is reported only if a fresh process reproduces it, with the attempt count.
+			code, attempts := 0, 0
+			for attempts < 6 {
+				attempts++
+				cmd = exec.Command(self(), "replay", "-file", path, "-quiet")
+				cmd.Env = append(os.Environ(), "GOMAXPROCS=1")
+				var err error
+				ob, err = cmd.CombinedOutput()
+				code = 0
+				if ee, ok := err.(*exec.ExitError); ok {
+					code = ee.ExitCode()
+				}
+				if code == 1 {
+					break
+				}
 			}
 			if code != 1 {
-				undecided = append(undecided, fmt.Sprintf("violation %s did not reproduce from its replay file %s (exit %d): %s", s, path, code, tail(string(ob), 1500)))
+				undecided = append(undecided, fmt.Sprintf("violation %s did not reproduce from its replay file %s in %d fresh processes (exit %d): %s", s, path, attempts, code, tail(string(ob), 1500)))
 				continue
+			}
+			if attempts > 1 {
+				fmt.Printf("note: %s reproduced on replay attempt %d of 6 (part of this run executes under real, uncontrolled parallelism)\n", s, attempts)
 			}
 		}
 		if kf == nil {
